@@ -869,12 +869,6 @@ Qed.
 End Loop.
 
 (* ================= XlsbCellsReader::new on a legal header ================= *)
-Lemma find_bound_B1 : forall t, find_bound BOUNDS1 t = None.
-Proof.
-  intros t. unfold BOUNDS1. cbn [find_bound].
-  destruct (129 =? t); [reflexivity|]. destruct (147 =? t); reflexivity.
-Qed.
-
 Lemma nsb_found : forall f rt bounds fr body rest buf, wf_frame fr rt body = true ->
   next_skip_blocks (S f) rt bounds (frame fr rt body ++ rest) buf =
     Ok (lenN body, body ++ (if lenN buf <? lenN body then [] else skipn (length body) buf), rest).
@@ -986,6 +980,72 @@ Proof.
         exists b2, F'. split; [cbn [hcounts fold_right hcount]; fold (hcounts hs); lia|exact E2].
 Qed.
 
+(* ---- the single header scan of the repaired XlsbCellsReader::new ---- *)
+Definition dim_known (dims : option (pos * pos)) : bool :=
+  match dims with None => false | Some _ => true end.
+
+Lemma block_end_not_dim : forall id e, find_bound BOUNDS2 id = Some e -> (id =? 148) = false.
+Proof.
+  intros id e H. destruct (id =? 148) eqn:E; [|reflexivity].
+  apply N.eqb_eq in E. subst. vm_compute in H. discriminate.
+Qed.
+
+Lemma scan_cond : forall id dims, dim_known dims || negb (id =? 148) = true ->
+  (id =? 148) && (match dims with None => true | Some _ => false end) = false.
+Proof. intros id [d|] H; cbn [dim_known orb] in H; destruct (id =? 148); cbn in *; congruence. Qed.
+
+Lemma scan_begin : forall f fr body rest buf dims, wf_frame fr 145 body = true ->
+  scan_header (S f) (frame fr 145 body ++ rest) buf dims = Ok (dims, rest).
+Proof.
+  intros f fr body rest buf dims H. cbn [scan_header].
+  rewrite read_type_frame by exact H. cbn [obind fst snd].
+  rewrite (fill_frame _ _ _ rest buf H). cbn [obind fst snd]. reflexivity.
+Qed.
+
+Lemma scan_hrecs : forall hs F rest buf dims,
+  forallb wf_hrec hs = true -> forallb (fun h => dim_known dims || no_dim h) hs = true ->
+  (hcounts hs <= F)%nat ->
+  exists buf' F', (F - hcounts hs <= F')%nat /\
+    scan_header F (flat_map enc_hrec hs ++ rest) buf dims = scan_header F' rest buf' dims.
+Proof.
+  induction hs as [|h hs IH]; intros F rest buf dims Hwf Hnd HF.
+  - cbn [flat_map app]. exists buf, F. split; [lia|reflexivity].
+  - cbn [forallb] in Hwf, Hnd. apply andb_true_iff in Hwf as [Hh Hwf].
+    apply andb_true_iff in Hnd as [Hn Hnd].
+    cbn [hcounts fold_right] in HF. fold (hcounts hs) in HF.
+    cbn [flat_map]. rewrite <- app_assoc.
+    destruct h as [r|o inner c]; cbn [wf_hrec enc_hrec hcount no_dim] in *.
+    + apply andb_true_iff in Hh as [Hh Hb]. apply andb_true_iff in Hh as [Hw Hne].
+      destruct r as [[fr id] body]. unfold enc_raw, wf_raw in *. cbn [fst snd] in *.
+      unfold block_end in Hb. destruct (find_bound BOUNDS2 id) eqn:Eb; [discriminate|].
+      destruct F as [|f]; [lia|]. cbn [scan_header].
+      rewrite read_type_frame by exact Hw. cbn [obind fst snd].
+      rewrite (fill_frame _ _ _ _ buf Hw). cbn [obind fst snd].
+      destruct (id =? 145) eqn:E; [lia|]. rewrite (scan_cond _ _ Hn), Eb.
+      match goal with |- context [scan_header f _ ?b dims] =>
+        destruct (IH f rest b dims Hwf Hnd) as (b2 & F' & HF' & E2); [lia|] end.
+      exists b2, F'. split; [cbn [hcounts fold_right hcount]; fold (hcounts hs); lia|exact E2].
+    + apply andb_true_iff in Hh as [Hh Hb]. apply andb_true_iff in Hh as [Hw Hne].
+      destruct o as [[fr id] body]. unfold enc_raw at 1. unfold wf_raw in Hw. cbn [fst snd] in *.
+      unfold block_end in *. destruct (find_bound BOUNDS2 id) as [e|] eqn:Eb; [|discriminate].
+      apply andb_true_iff in Hb as [Hc Hin].
+      destruct F as [|f]; [lia|].
+      rewrite <- !app_assoc. cbn [scan_header].
+      rewrite read_type_frame by exact Hw. cbn [obind fst snd].
+      rewrite (fill_frame _ _ _ _ buf Hw). cbn [obind fst snd].
+      destruct (id =? 145) eqn:E; [lia|]. rewrite (block_end_not_dim _ Eb). cbn [andb]. rewrite Eb.
+      destruct (@skip_until_list inner f e (fst c) (snd c) (flat_map enc_hrec hs ++ rest)
+                  (body ++ (if lenN buf <? lenN body then [] else skipn (length body) buf)))
+        as [b1 E1].
+      * eapply forallb_Forall; [|exact Hin]. intros x Hx. cbv beta in Hx.
+        apply andb_true_iff in Hx as [Hx1 Hx2]. split; [exact Hx1|lia].
+      * exact Hc.
+      * lia.
+      * rewrite E1. cbn [obind fst snd].
+        destruct (IH f rest b1 dims Hwf Hnd) as (b2 & F' & HF' & E2); [lia|].
+        exists b2, F'. split; [cbn [hcounts fold_right hcount]; fold (hcounts hs); lia|exact E2].
+Qed.
+
 (* ---- lengths: a part is at least as long as its number of records ---- *)
 Lemma raws_length : forall rs, (length rs <= length (flat_map enc_raw rs))%nat.
 Proof.
@@ -1057,55 +1117,84 @@ Variable en : env.
 
 Ltac lia := try clear fdiv100; try clear en; Lia.lia.
 
+Lemma forallb_known : forall (d : pos * pos) (hs : list hrec),
+  forallb (fun h => dim_known (Some d) || no_dim h) hs = true.
+Proof. intros d hs. induction hs as [|h hs IH]; [reflexivity|]. cbn [forallb dim_known orb]. exact IH. Qed.
+
+Lemma forallb_unknown : forall hs : list hrec, forallb no_dim hs = true ->
+  forallb (fun h => dim_known None || no_dim h) hs = true.
+Proof.
+  intros hs H. induction hs as [|h hs IH]; [reflexivity|]. cbn [forallb] in *.
+  apply andb_true_iff in H as [H1 H2]. cbn [dim_known orb]. rewrite H1. exact (IH H2).
+Qed.
+
+(* every legal layout, with or without the optional BrtWsDim *)
 Theorem sheet_cells_encode : forall c,
-  wf_layout en c = true -> known_C03 c = None ->
+  wf_layout en c = true ->
   sheet_cells fdiv100 en (encode_sheet c) = Ok (logical fdiv100 en c).
 Proof.
-  intros c Hwf Hk. unfold known_C03 in Hk.
-  destruct c as [pre1 dim pre2 [frb bb] items [fre be] trailer]. cbn [l_dim] in Hk.
-  destruct dim as [[[frd d] dtail]|]; [clear Hk|discriminate].
+  intros c Hwf.
+  destruct c as [pre1 dim pre2 [frb bb] items [fre be] trailer].
   unfold wf_layout in Hwf. cbn [l_pre1 l_dim l_pre2 l_begin l_items l_end fst snd] in Hwf.
   apply andb_true_iff in Hwf as [Hwf He]. apply andb_true_iff in Hwf as [Hwf Hsr].
   apply andb_true_iff in Hwf as [Hwf Hit]. apply andb_true_iff in Hwf as [Hwf Hb].
-  apply andb_true_iff in Hwf as [Hwf Hp2]. apply andb_true_iff in Hwf as [Hp1 Hd].
-  unfold wf_dim in Hd. cbn [fst snd] in Hd.
-  apply andb_true_iff in Hd as [Hd D4]. apply andb_true_iff in Hd as [Hd D3].
-  apply andb_true_iff in Hd as [Hd D2]. apply andb_true_iff in Hd as [Hdf D1].
-  destruct d as [[r0 c0] [r1 c1]]. cbn [fst snd] in *.
+  apply andb_true_iff in Hwf as [Hwf Hp2]. apply andb_true_iff in Hwf as [Hwf Hd].
+  apply andb_true_iff in Hwf as [Hp1 Hn1].
   pose (T3 := flat_map enc_item items ++ frame fre 146 be ++ trailer).
   pose (T2 := flat_map enc_hrec pre2 ++ frame frb 145 bb ++ T3).
-  pose (T1 := frame frd 148 (dim_body (r0, c0, (r1, c1)) dtail) ++ T2).
-  pose (S0 := flat_map enc_raw pre1 ++ T1).
-  match goal with |- sheet_cells _ _ ?e = _ => change e with S0 end.
-  unfold sheet_cells.
-  (* lengths *)
-  assert (L1 := raws_length pre1). assert (L2 := hrecs_length pre2 Hp2).
+  assert (L1 := hrecs_length pre1 Hp1). assert (L2 := hrecs_length pre2 Hp2).
   assert (L3 := items_length items).
-  assert (Lf1 := frame_length_pos frd 148 (dim_body (r0, c0, (r1, c1)) dtail)).
   assert (Lf2 := frame_length_pos frb 145 bb). assert (Lf3 := frame_length_pos fre 146 be).
-  assert (LS : (length pre1 + hcounts pre2 + length items + 6 <= length S0)%nat).
-  { unfold S0, T1, T2, T3. rewrite !app_length. lia. }
-  cbv zeta. set (F := S (length S0)). unfold reader_new.
-  (* phase 1: up to BrtWsDim *)
-  destruct (@nsb_skip_list pre1 F 148 BOUNDS1 T1 []) as [b1 E1].
-  { eapply forallb_Forall; [|exact Hp1]. intros x Hx. unfold wf_pre1 in Hx.
-    apply andb_true_iff in Hx as [Hx1 Hx2]. split; [exact Hx1|]. split; [lia|apply find_bound_B1]. }
-  { unfold F. lia. }
-  unfold S0 at 1. rewrite E1.
-  destruct (F - length pre1)%nat as [|f1] eqn:EF1; [unfold F in EF1; lia|].
-  unfold T1 at 1. rewrite nsb_found by exact Hdf. cbn [obind fst snd].
-  rewrite check_ok by (rewrite lenN_dim_body; lia). cbn [obind].
-  rewrite dim_body_app. rewrite parse_dims_body by lia. cbn [obind fst snd].
-  (* phase 2: up to BrtBeginSheetData *)
-  match goal with |- context [next_skip_blocks F 145 BOUNDS2 T2 ?b] => set (buf2 := b) end.
-  unfold T2 at 1.
-  destruct (@nsb_hrecs pre2 F (frame frb 145 bb ++ T3) buf2 Hp2) as (b2 & F2 & HF2 & E2).
-  { unfold F. lia. }
-  rewrite E2. destruct F2 as [|f2]; [unfold F in HF2; lia|].
-  rewrite nsb_found by exact Hb. cbn [obind fst snd].
-  (* phase 3: the cell table *)
-  unfold T3. unfold logical. cbn [l_items].
-  apply cell_table_loop; [exact Hit|exact He|unfold F; lia].
+  destruct dim as [[[frd d] dtail]|].
+  - (* BrtWsDim present *)
+    unfold wf_dim in Hd. cbn [fst snd] in Hd.
+    apply andb_true_iff in Hd as [Hd D4]. apply andb_true_iff in Hd as [Hd D3].
+    apply andb_true_iff in Hd as [Hd D2]. apply andb_true_iff in Hd as [Hdf D1].
+    destruct d as [[r0 c0] [r1 c1]]. cbn [fst snd] in *.
+    pose (T1 := frame frd 148 (dim_body (r0, c0, (r1, c1)) dtail) ++ T2).
+    pose (S0 := flat_map enc_hrec pre1 ++ T1).
+    match goal with |- sheet_cells _ _ ?e = _ => change e with S0 end.
+    unfold sheet_cells.
+    assert (Lf1 := frame_length_pos frd 148 (dim_body (r0, c0, (r1, c1)) dtail)).
+    assert (LS : (hcounts pre1 + hcounts pre2 + length items + 6 <= length S0)%nat).
+    { unfold S0, T1, T2, T3. rewrite !app_length. lia. }
+    cbv zeta. set (F := S (length S0)). unfold reader_new.
+    destruct (@scan_hrecs pre1 F T1 [] None Hp1 (forallb_unknown _ Hn1)) as (b1 & F1 & HF1 & E1).
+    { unfold F. lia. }
+    unfold S0 at 1. rewrite E1.
+    destruct F1 as [|f1]; [unfold F in HF1; lia|].
+    unfold T1 at 1. cbn [scan_header].
+    rewrite read_type_frame by exact Hdf. cbn [obind fst snd].
+    rewrite (fill_frame _ _ _ _ b1 Hdf). cbn [obind fst snd].
+    change (148 =? 145) with false. change (148 =? 148) with true. cbv iota. cbn [andb].
+    rewrite check_ok by (rewrite lenN_dim_body; lia). cbn [obind].
+    rewrite dim_body_app. rewrite parse_dims_body by lia. cbn [obind fst snd].
+    match goal with |- context [scan_header f1 T2 ?b ?dd] => set (buf2 := b); set (dd0 := dd) end.
+    unfold T2 at 1.
+    destruct (@scan_hrecs pre2 f1 (frame frb 145 bb ++ T3) buf2 dd0 Hp2 (forallb_known _ _))
+      as (b2 & F2 & HF2 & E2).
+    { unfold F in HF1. lia. }
+    rewrite E2. destruct F2 as [|f2]; [unfold F in HF1; lia|].
+    rewrite scan_begin by exact Hb. cbn [obind fst snd].
+    unfold T3. unfold logical. cbn [l_items].
+    apply cell_table_loop; [exact Hit|exact He|unfold F; lia].
+  - (* no BrtWsDim: the header is one run of skipped records and blocks *)
+    pose (S0 := flat_map enc_hrec pre1 ++ T2).
+    match goal with |- sheet_cells _ _ ?e = _ => change e with S0 end.
+    unfold sheet_cells.
+    assert (LS : (hcounts pre1 + hcounts pre2 + length items + 4 <= length S0)%nat).
+    { unfold S0, T2, T3. rewrite !app_length. lia. }
+    cbv zeta. set (F := S (length S0)). unfold reader_new.
+    destruct (@scan_hrecs pre1 F T2 [] None Hp1 (forallb_unknown _ Hn1)) as (b1 & F1 & HF1 & E1).
+    { unfold F. lia. }
+    unfold S0 at 1. rewrite E1. unfold T2 at 1.
+    destruct (@scan_hrecs pre2 F1 (frame frb 145 bb ++ T3) b1 None Hp2 (forallb_unknown _ Hd))
+      as (b2 & F2 & HF2 & E2).
+    { unfold F in HF1. lia. }
+    rewrite E2. destruct F2 as [|f2]; [unfold F in HF1; lia|].
+    rewrite scan_begin by exact Hb. cbn [obind fst snd].
+    unfold T3. unfold logical. cbn [l_items].
+    apply cell_table_loop; [exact Hit|exact He|unfold F; lia].
 Qed.
 
 (* the public cells reader alone (worksheet_cells_reader + next_cell) sees the same cells *)
@@ -1337,10 +1426,10 @@ Qed.
 (* for every logical sheet and every legal encoding of it outside the known class, the model of
    worksheet_range_ref returns the expected range *)
 Theorem xlsb_sheet_main : forall L c,
-  legal fdiv100 en c L -> known_C03 c = None ->
+  legal fdiv100 en c L ->
   worksheet_range_ref fdiv100 en FirstNonEmptyRow (encode_sheet c) = Ok (range_of (RVal DEmpty) L).
 Proof.
-  intros L c (Hwf & HL & Hs) Hk. unfold worksheet_range_ref.
+  intros L c (Hwf & HL & Hs). unfold worksheet_range_ref.
   rewrite sheet_cells_encode by assumption. cbn [obind lazy_cells]. rewrite HL.
   apply from_sparse_range_of; [apply sorted_by_rowb_spec, Hs|].
   rewrite <- HL. unfold logical. apply denote_grid; [|lia].
@@ -1350,12 +1439,12 @@ Qed.
 (* what "range_of L" means, spelled out: tight bounding box of the cells, every cell at its
    absolute position (the last record wins), Empty elsewhere inside, nothing outside *)
 Theorem xlsb_sheet_values : forall L c,
-  legal fdiv100 en c L -> known_C03 c = None ->
+  legal fdiv100 en c L ->
   exists r, worksheet_range_ref fdiv100 en FirstNonEmptyRow (encode_sheet c) = Ok r /\ Wf r /\
     rect r = tight_bbox (map fst L) /\
     forall q, get_value r q = if in_rect r q then Some (last_write (RVal DEmpty) L q) else None.
 Proof.
-  intros L c (Hwf & HL & Hs) Hk. unfold worksheet_range_ref.
+  intros L c (Hwf & HL & Hs). unfold worksheet_range_ref.
   rewrite sheet_cells_encode by assumption. cbn [obind lazy_cells]. rewrite HL.
   apply from_sparse_spec. cbn [pre].
   assert (Hg : Forall (@in_grid dref) L).
@@ -1372,22 +1461,22 @@ Qed.
 
 (* Reader::worksheet_range: the same with SharedString turned into String *)
 Theorem xlsb_sheet_main_data : forall L c,
-  legal fdiv100 en c L -> known_C03 c = None ->
+  legal fdiv100 en c L ->
   worksheet_range fdiv100 en FirstNonEmptyRow (encode_sheet c) =
     Ok (range_of DEmpty (map (fun x => (fst x, to_data (snd x))) L)).
 Proof.
-  intros L c HL Hk. unfold worksheet_range. rewrite (xlsb_sheet_main HL Hk). cbn [obind].
+  intros L c HL. unfold worksheet_range. rewrite (xlsb_sheet_main HL). cbn [obind].
   f_equal. apply (range_of_map to_data (RVal DEmpty)).
 Qed.
 
 (* on HEAD the rows need not even be in order: every well-formed layout reads back as the range
    of its logical cells *)
 Theorem xlsb_sheet_main_any_order : forall c,
-  wf_layout en c = true -> known_C03 c = None ->
+  wf_layout en c = true ->
   worksheet_range_ref fdiv100 en FirstNonEmptyRow (encode_sheet c) =
     Ok (range_of (RVal DEmpty) (logical fdiv100 en c)).
 Proof.
-  intros c Hwf Hk. unfold worksheet_range_ref.
+  intros c Hwf. unfold worksheet_range_ref.
   rewrite sheet_cells_encode by assumption. cbn [obind lazy_cells].
   apply from_sparse_range_of_any_order.
   unfold logical. apply denote_grid; [|lia].
@@ -1462,11 +1551,11 @@ Qed.
 (* the shared strings and one sheet of a workbook together *)
 Theorem xlsb_workbook_main : forall fdiv100 formats is1904 total items trailer L c,
   total < 4294967296 -> lenN items < 4294967296 -> forallb wf_sst_item items = true ->
-  legal fdiv100 (mkEnv formats is1904 (sst_strings items)) c L -> known_C03 c = None ->
+  legal fdiv100 (mkEnv formats is1904 (sst_strings items)) c L ->
   workbook_range_ref fdiv100 formats is1904 (Some (encode_sst total items trailer))
                      FirstNonEmptyRow (encode_sheet c) = Ok (range_of (RVal DEmpty) L).
 Proof.
-  intros fdiv100 formats is1904 total items trailer L c Ht Hn Hwf HL Hk.
+  intros fdiv100 formats is1904 total items trailer L c Ht Hn Hwf HL.
   unfold workbook_range_ref. rewrite sst_roundtrip by assumption. cbn [obind].
   apply xlsb_sheet_main; assumption.
 Qed.
@@ -1475,28 +1564,21 @@ Qed.
 Definition fr1 : frm := mkFrm false 0.
 Definition fr2 : frm := mkFrm true 1.
 
-(* class 1: a worksheet part without BrtWsDim *)
+(* a worksheet part without BrtWsDim (the former known class): legal, and read correctly *)
 Definition nodim_layout : layout :=
-  mkLayout [(fr2, 129, [])] None [] (fr2, [])
+  mkLayout [HRec (fr2, 129, [])] None [] (fr2, [])
            [(fr1, IRow 0 []); (fr1, ICell 0 0 0 (VBool true) [])] (fr2, []) [].
 Definition empty_env : env := mkEnv [] false [].
 
-Theorem refuted_wsdim_absent : forall fdiv100, exists c L,
-  legal fdiv100 empty_env c L /\ known_C03 c = Some 1 /\
-  worksheet_range_ref fdiv100 empty_env FirstNonEmptyRow (encode_sheet c)
-    <> Ok (range_of (RVal DEmpty) L).
-Proof.
-  intros fdiv100. exists nodim_layout, [((0, 0), RVal (DBool true))].
-  split; [|split].
-  - split; [|split]; vm_compute; reflexivity.
-  - reflexivity.
-  - vm_compute. discriminate.
-Qed.
+Lemma nodim_legal : forall fdiv100,
+  legal fdiv100 empty_env nodim_layout [((0, 0), RVal (DBool true))] /\
+  l_dim nodim_layout = None.
+Proof. intros. split; [split; [|split]|]; vm_compute; reflexivity. Qed.
 
 (* a layout with every record kind, both id forms, padded lengths, a block, a wrong BrtWsDim *)
 Definition example_env : env := mkEnv [FOther; FDateTime; FTimeDelta] false [[97; 98]; [99]].
 Definition example_layout : layout :=
-  mkLayout [(fr2, 129, []); (fr2, 147, [1; 2; 3])]
+  mkLayout [HRec (fr2, 129, []); HRec (fr2, 147, [1; 2; 3])]
            (Some (fr2, ((0, 0), (5, 5)), []))
            [HRec (fr2, 485, [1; 2]);
             HBlock (fr2, 133, []) [(fr2, 137, [0; 0]); (fr2, 145, [])] (fr2, [])]
@@ -1519,9 +1601,9 @@ Definition example_layout : layout :=
 
 Lemma example_legal : forall fdiv100,
   legal fdiv100 example_env example_layout (logical fdiv100 example_env example_layout) /\
-  known_C03 example_layout = None /\
+  l_dim example_layout <> None /\
   length (logical fdiv100 example_env example_layout) = 11%nat.
-Proof. intros. split; [split; [|split]|split]; vm_compute; reflexivity. Qed.
+Proof. intros. split; [split; [|split]|split]; vm_compute; try reflexivity; discriminate. Qed.
 
 Lemma example_sst :
   forallb wf_sst_item [(fr1, [97; 98], []); (fr2, [99], [1; 2])] = true /\
@@ -1606,32 +1688,69 @@ Proof.
   split; [exact next_record_clean|]. split; [exact skip_until_clean|exact nsb_clean].
 Qed.
 
+
+Lemma scan_header_clean : forall f s buf dims, (length s < f)%nat ->
+  clean (scan_header f s buf dims).
+Proof.
+  induction f as [|f IH]; intros s buf dims H; [lia|]. cbn [scan_header].
+  destruct (read_type_clean s) as [T1 T2].
+  destruct (read_type s) as [[t s1]| | |] eqn:E1; cbn [obind fst snd]; try apply clean_err; try congruence.
+  apply read_type_len in E1.
+  destruct (fill_buffer_clean s1 buf) as [F1 F2].
+  destruct (fill_buffer s1 buf) as [[[l b] r]| | |] eqn:E2; cbn [obind fst snd];
+    try apply clean_err; try congruence.
+  pose proof (fill_buffer_buf _ _ E2) as Hb. apply fill_buffer_len in E2.
+  destruct (t =? 145); [apply clean_ok|].
+  destruct ((t =? 148) && match dims with None => true | Some _ => false end).
+  - unfold check_len. destruct (l <? 16) eqn:E16; cbn [obind]; [apply clean_err|].
+    unfold parse_dims. destruct (lenN b <? 16) eqn:Eb; [lia|]. cbn [obind]. apply IH. lia.
+  - destruct (find_bound BOUNDS2 t) as [e|].
+    + destruct (@skip_until_clean f e r b ltac:(lia)) as [S1 S2].
+      destruct (skip_until f e r b) as [[b2 r2]| | |] eqn:E3; cbn [obind fst snd];
+        try apply clean_err; try congruence.
+      apply skip_until_len in E3. apply IH. lia.
+    + apply IH. lia.
+Qed.
+
+Lemma scan_header_len : forall f s buf dims d r,
+  scan_header f s buf dims = Ok (d, r) -> (length r < length s)%nat.
+Proof.
+  induction f as [|f IH]; intros s buf dims d r H; [discriminate|]. cbn [scan_header] in H.
+  destruct (read_type s) as [[t s1]| | |] eqn:E1; cbn [obind fst snd] in H; try discriminate.
+  apply read_type_len in E1.
+  destruct (fill_buffer s1 buf) as [[[l1 b1] r1]| | |] eqn:E2; cbn [obind fst snd] in H; try discriminate.
+  apply fill_buffer_len in E2.
+  destruct (t =? 145).
+  - inversion H; subst. lia.
+  - destruct ((t =? 148) && match dims with None => true | Some _ => false end).
+    + destruct (check_len l1 16); cbn [obind] in H; try discriminate.
+      destruct (parse_dims b1); cbn [obind] in H; try discriminate.
+      apply IH in H. lia.
+    + destruct (find_bound BOUNDS2 t) as [e|].
+      * destruct (skip_until f e r1 b1) as [[b2 r2]| | |] eqn:E3; cbn [obind fst snd] in H; try discriminate.
+        apply skip_until_len in E3. apply IH in H. lia.
+      * apply IH in H. lia.
+Qed.
+
 Lemma reader_new_clean : forall F s, (length s < F)%nat -> clean (reader_new F s).
 Proof.
   intros F s H. unfold reader_new.
-  destruct (@nsb_clean F 148 BOUNDS1 s [] H) as [A1 A2].
-  destruct (next_skip_blocks F 148 BOUNDS1 s []) as [[[l b] r]| | |] eqn:E1; cbn [obind fst snd];
-    try apply clean_err; try congruence.
-  apply nsb_ok in E1 as [Hr Hl].
-  unfold check_len. destruct (l <? 16) eqn:E16; cbn [obind]; [apply clean_err|].
-  unfold parse_dims. destruct (lenN b <? 16) eqn:Eb; [lia|]. cbn [obind].
-  destruct (@nsb_clean F 145 BOUNDS2 r b ltac:(lia)) as [B1 B2].
-  destruct (next_skip_blocks F 145 BOUNDS2 r b) as [[[l2 b2] r2]| | |]; cbn [obind fst snd];
+  destruct (@scan_header_clean F s [] None H) as [A1 A2].
+  destruct (scan_header F s [] None) as [[d r]| | |]; cbn [obind fst snd];
     try apply clean_err; try apply clean_ok; congruence.
 Qed.
 
 Lemma reader_new_len : forall F s d r, reader_new F s = Ok (d, r) -> (length r < length s)%nat.
 Proof.
   intros F s d r H. unfold reader_new in H.
-  destruct (next_skip_blocks F 148 BOUNDS1 s []) as [[[l b] r1]| | |] eqn:E1; cbn [obind fst snd] in H;
-    try discriminate.
-  apply nsb_ok in E1 as [Hr _].
-  destruct (check_len l 16); cbn [obind] in H; try discriminate.
-  destruct (parse_dims b); cbn [obind] in H; try discriminate.
-  destruct (next_skip_blocks F 145 BOUNDS2 r1 b) as [[[l2 b2] r2]| | |] eqn:E2; cbn [obind fst snd] in H;
-    try discriminate.
-  apply nsb_ok in E2 as [Hr2 _]. inversion H; subst. lia.
+  destruct (scan_header F s [] None) as [[d1 r1]| | |] eqn:E; cbn [obind fst snd] in H; try discriminate.
+  apply scan_header_len in E. inversion H; subst. exact E.
 Qed.
+
+(* the header scan of XlsbCellsReader::new *)
+Theorem no_panic_header : forall f s buf dims, (length s < f)%nat ->
+  clean (scan_header f s buf dims).
+Proof. intros f s buf dims H. apply scan_header_clean. exact H. Qed.
 
 (* C03_no_panic_reader: for every byte string whatsoever, every style table and string table,
    the model of worksheet_cells_reader + next_cell* (and of the cell list worksheet_range_ref
